@@ -228,6 +228,19 @@ Fixpoint h_ins_retrace (fuel : nat) (h : heap) (rt : option Z) (i : Z) (c : list
       end
   end.
 
+(* "Make p the parent of n" (n->parent = p is already set): new heap and p_height_increased *)
+Definition h_link (h0 : heap) (p id : Z) (cmp : comparison) : heap * bool :=
+  match cmp with
+  | Lt => (* p->left = n; --p->balance; p_height_increased = !p->right; *)
+      let h1 := set_left h0 p (Some id) in
+      let h2 := set_bal h1 p (bal h1 p - 1) in
+      (h2, match right h2 p with None => true | Some _ => false end)
+  | _ =>  (* p->right = n; ++p->balance; p_height_increased = !p->left; *)
+      let h1 := set_right h0 p (Some id) in
+      let h2 := set_bal h1 p (bal h1 p + 1) in
+      (h2, match left h2 p with None => true | Some _ => false end)
+  end.
+
 (* status, *ti, new state, rest of the oracle, rotation log, comparison log *)
 Definition h_insert (dup : bool) (x : elt) (o : list bool) (st : hstate)
   : option (status * option Z * hstate * list bool * list Z * list Z) :=
@@ -254,17 +267,7 @@ Definition h_insert (dup : bool) (x : elt) (o : list bool) (st : hstate)
         let h0 := hset h id (mkNode x 0 p None None) in
         match pc with
         | Some (DParent p cmp) =>
-            let '(h1, inc) :=
-              match cmp with
-              | Lt => (* p->left = n; --p->balance; p_height_increased = !p->right; *)
-                  let h1 := set_left h0 p (Some id) in
-                  let h2 := set_bal h1 p (bal h1 p - 1) in
-                  (h2, match right h2 p with None => true | Some _ => false end)
-              | _ =>  (* p->right = n; ++p->balance; p_height_increased = !p->left; *)
-                  let h1 := set_right h0 p (Some id) in
-                  let h2 := set_bal h1 p (bal h1 p + 1) in
-                  (h2, match left h2 p with None => true | Some _ => false end)
-              end in
+            let '(h1, inc) := h_link h0 p id cmp in
             if inc then
               match h_ins_retrace (fuel_of st) h1 (hroot st) p [] with
               | Some (h2, rt2, c) => Some (SUCCESS, Some id, mkH h2 rt2 (hsize st + 1) (id + 1), o', c, lg)
